@@ -113,39 +113,56 @@ pub fn one(i: usize) {
     );
 }
 
+/// Does the script build a value of a zero-sized aggregate type with a
+/// zero-sized registered component (`R0`, `R00`, `RN`)? Those are the inputs
+/// of the open finding `C02-zero-sized-aggregate-of-registered`.
+pub fn zero_sized_aggregate(i: usize) -> bool {
+    let b = SCRIPTS[i].1;
+    b.contains("R0 {") || b.contains("R00 {") || b.contains("RN {")
+}
+
 pub fn run(rep: &mut Report) {
+    for i in 0..SCRIPTS.len() {
+        run_one(i, rep);
+    }
+}
+
+pub fn run_one(i: usize, rep: &mut Report) {
     let exe = std::env::current_exe().expect("exe");
-    for (i, (name, _, want)) in SCRIPTS.iter().enumerate() {
+    {
+        let (name, _, want) = &SCRIPTS[i];
+        let pre = if zero_sized_aggregate(i) { "zst0agg" } else { "zst" };
         let out = std::process::Command::new(&exe).args(["zst-one", &i.to_string()]).output();
         rep.evaluations += 1;
         rep.hist("zst", *name);
         let input = json!({"kind": "zst", "index": i, "name": name, "script": source(i)});
         let Ok(out) = out else {
-            super::viol(rep, "cannot run the zero-sized battery", &format!("zst:{name}:spawn"), input);
-            continue;
+            super::viol(rep, "cannot run the zero-sized battery", &format!("{pre}:{name}:spawn"), input);
+            return;
         };
         let text = String::from_utf8_lossy(&out.stdout).to_string();
         let line = text.lines().find_map(|l| l.strip_prefix("ZST "));
         let Some(v) = line.and_then(|l| serde_json::from_str::<serde_json::Value>(l).ok()) else {
             let err = super::strip_ansi(&String::from_utf8_lossy(&out.stderr));
-            let last: Vec<&str> = err.lines().rev().take(3).collect();
+            let first: Vec<&str> = err.lines().filter(|l| !l.trim().is_empty() && !l.starts_with("thread '")).take(1).collect();
+            let how = if err.contains("Internal compiler error: did not find Var") { "ice-did-not-find-var" } else { "crash" };
             super::viol(
                 rep,
-                &format!("a well-typed script over zero-sized registered values kills the process ({:?}): {}", out.status.code(), last.join(" / ")),
-                &format!("zst:{name}:crash"),
+                &format!("a well-typed script over zero-sized registered values kills the process ({:?}): {}", out.status.code(), first.join(" / ")),
+                &format!("{pre}:{name}:{how}"),
                 input,
             );
-            continue;
+            return;
         };
         if let Some(e) = v.get("compile_error") {
-            super::viol(rep, &format!("a well-typed script over zero-sized registered values does not compile: {e}"), &format!("zst:{name}:compile"), input);
-            continue;
+            super::viol(rep, &format!("a well-typed script over zero-sized registered values does not compile: {e}"), &format!("{pre}:{name}:compile"), input);
+            return;
         }
         let held = v["held"].as_u64().unwrap_or(u64::MAX) as usize;
         let la = v["live_after"].as_i64().unwrap_or(i64::MIN);
         let le = v["live_end"].as_i64().unwrap_or(i64::MIN);
         if v["result"] != json!(true) {
-            super::viol(rep, "== / != on values built from zero-sized registered values is not structural equality", &format!("zst:{name}:eq"), input.clone());
+            super::viol(rep, "== / != on values built from zero-sized registered values is not structural equality", &format!("{pre}:{name}:eq"), input.clone());
         }
         if held != *want || la != *want as i64 || le != 0 {
             super::viol(
@@ -153,7 +170,7 @@ pub fn run(rep: &mut Report) {
                 &format!(
                     "copies of a value built from zero-sized registered Clone values are not values of their own: the host holds {held} (expected {want}), live after the call {la} (expected {want}), live after releasing them {le} (expected 0)"
                 ),
-                &format!("zst:{name}:balance"),
+                &format!("{pre}:{name}:balance"),
                 input,
             );
         }
